@@ -1,8 +1,9 @@
 #!/bin/bash
 # run every registered check of a tier sequentially; print one line per check
+# (PROPS="06 07" restricts the run to some properties)
 T=${1:-quick}
 cd "$(dirname "$0")/.."
-for i in 01 02 03 04 05 06 07 08 09 10 11 12 13 14 15 16 17 18 19 20; do
+for i in ${PROPS:-01 02 03 04 05 06 07 08 09 10 11 12 13 14 15 16 17 18 19 20}; do
   s=$(date +%s)
   out=$(./check C$i $T 2>/tmp/runall_C$i.err); rc=$?
   e=$(date +%s)
